@@ -294,7 +294,10 @@ PROPS["C02"] = dict(
           "more rows than batch_size and a page whose row count is not a multiple of batch_size."),
     assumptions=["read_batch(k) may return fewer than k rows ('up to'); only content, order, totals, skip = min(n, remaining) and remaining() are asserted",
                  "level buffers are omitted only for REQUIRED columns", "the null bitmap polarity is not imposed, only required to be the same everywhere"],
-    engines=[pbt("c02_histories", libs=["rapidcheck", "snappy", "lz4"], quick=dict(cases=2500, size=60, enum=1, procs=6), thorough=dict(cases=12000, size=100, enum=2, procs=16))],
+    engines=[pbt("c02_histories", libs=["rapidcheck", "snappy", "lz4"], quick=dict(cases=2500, size=60, enum=1, procs=6), thorough=dict(cases=12000, size=100, enum=2, procs=16)),
+             # the same histories with harness and library built the way clients build them (gcc -O2, no sanitizer): what the
+             # public header promises the optimiser (pure / const / nonnull attributes) takes effect on the calling code
+             pbt("c02_histories", variant="prod", libs=["rapidcheck", "snappy", "lz4"], name="c02_histories_o2", quick=dict(cases=2500, size=60, procs=2), thorough=dict(cases=12000, size=100, procs=4))],
     min_evaluations=dict(quick=6000, thorough=150000),
 )
 
